@@ -40,6 +40,11 @@ var apiFiles = []treeFile{
 	{Name: "bad-in-loop", Src: "@each(x in items)PARTIAL-OUTPUT-MARKER {{ x }} {{ 6 / (3 - x) }}@end"},
 	{Name: "bad-in-slot", Src: "PARTIAL-OUTPUT-MARKER before @component(\"~c\", {n: 1})@slot in the slot {{ items[0] / 0 }} end@end@end after"},
 	{Name: "bad-in-insert", Src: "@use(\"~main\")@insert(\"title\", items[0] / 0)@insert(\"content\")PARTIAL-OUTPUT-MARKER body@end"},
+	{Name: "bad-in-array", Src: "PARTIAL-OUTPUT-MARKER {{ [who, who, items[0] / 0] }} after"},
+	{Name: "bad-in-args", Src: "PARTIAL-OUTPUT-MARKER {{ [who].append(who, items[0] / 0).join(\"-\") }} after"},
+	// (one key only: the printed form of a loaded program, which the state snapshots compare, lists the keys of an
+	// object literal in map order)
+	{Name: "bad-in-object", Src: "PARTIAL-OUTPUT-MARKER {{ {b: items[0] / 0}.b }} after"},
 	{Name: "setvar", Src: "{{ total = 3 }}set:{{ total }}"},
 	{Name: "getvar", Src: "get:{{ total }}"},
 	{Name: "row1", Src: "row:{{ r.title }}"},
